@@ -523,7 +523,13 @@ pub fn run_connection(conn: &mut Conn<'_, '_>, steps_left: &mut u32) -> ConnEnd 
                 // the only non-fatal result that may close the connection: a mandatory
                 // acknowledgement does not fit the broker's Maximum Packet Size (C14)
                 // (after disconnect() the handle may be closed whatever it returned)
-                let ok = matches!(r, Res::PacketTooLarge) && matches!(step, Step::Poll | Step::Recv | Step::Drive) || matches!(step, Step::Disconnect);
+                // (publish/subscribe/unsubscribe drain older outbound work first: they meet an
+                // acknowledgement that does not fit just as poll does)
+                let ack_pending = with(|w| {
+                    let c = &w.conns[w.cur];
+                    c.max_packet_size.is_some_and(|m| m < 6) && (!c.owed_acks.is_empty() || !c.carry_acks.is_empty())
+                });
+                let ok = matches!(r, Res::PacketTooLarge) && (matches!(step, Step::Poll | Step::Recv | Step::Drive) || ack_pending) || matches!(step, Step::Disconnect);
                 if !ok {
                     with(|w| {
                         w.violate(
@@ -999,6 +1005,38 @@ fn inbound_qos2_saturation_prefix(conn: &mut Conn<'_, '_>) {
     });
 }
 
+/// C14/C04: an inbound QoS 1/2 publish is consumed, the transport dies inside the acknowledgement
+/// (the broker never gets it and will send the PUBLISH again), and the next CONNACK grants a
+/// Maximum Packet Size around the size of an acknowledgement.
+fn ack_lost_prefix(conn: &mut Conn<'_, '_>) {
+    let opts = ExecOpts { cancellable: true, idle_cancel: true, budget_us: None, timer_is_idle: true };
+    let sent = with(|w| {
+        w.probe("ack_lost_with_the_connection");
+        w.force_inbound_qos = Some(1 + w.tape.choose(2) as u8);
+        let cur = w.cur;
+        let ok = broker::broker_publish(w, cur);
+        w.force_inbound_qos = None;
+        if ok {
+            w.die_after_accepting = Some(1 + w.tape.choose(3) as usize);
+        }
+        ok
+    });
+    if !sent {
+        return;
+    }
+    for _ in 0..8 {
+        let r = do_wait(conn, Wait::Poll, Some(opts));
+        if r == Res::Cancelled || r.is_fatal() || !conn.is_connected() {
+            break;
+        }
+    }
+    with(|w| {
+        if w.die_after_accepting.take().is_none() {
+            w.force_next_mps = Some([2u32, 4, 5, 200][w.tape.choose(4) as usize]);
+        }
+    });
+}
+
 pub fn scenario_general(session: &mut Session<'_>) {
     let (max_conns, mut steps_left, burn) = with(|w| (w.cfg.max_conns, w.cfg.max_steps, w.cfg.id_burn));
     let mut drained = false;
@@ -1024,7 +1062,9 @@ pub fn scenario_general(session: &mut Session<'_>) {
                     release_saturation_prefix(&mut conn);
                 }
                 let mut lose_now = false;
-                if ci == 0 && with(|w| matches!(w.cfg.profile, Profile::Inbound | Profile::Sessions) && w.tape.chance(1, 8)) {
+                if ci == 0 && with(|w| matches!(w.cfg.profile, Profile::Limits | Profile::Inbound) && w.tape.chance(1, 8)) {
+                    ack_lost_prefix(&mut conn);
+                } else if ci == 0 && with(|w| matches!(w.cfg.profile, Profile::Inbound | Profile::Sessions) && w.tape.chance(1, 8)) {
                     inbound_qos2_saturation_prefix(&mut conn);
                     // half of the time the connection is lost right now, with the table full
                     lose_now = with(|w| w.tape.chance(1, 2));
